@@ -53,6 +53,7 @@ func (p *planner) emit(o impl.Op) {
 	if p.std {
 		x.Std = stdEval(o, p.lower)
 	}
+	x.StdRaw = stdEvalRaw(o)
 	p.ops = append(p.ops, x)
 }
 
@@ -779,7 +780,13 @@ func sl(o, l int) string {
 
 // stdEval computes the namesake in package bytes/strings (they agree; bytes is used) on the
 // arguments, lower-cased first when lower is set, and renders sub-slices by position.
-func stdEval(o impl.Op, lower bool) string {
+// stdEvalRaw: the standard library's answer on the arguments as they are (no lower-casing): the oracle
+// for the Lean models of the namesakes (Model/Std.lean), on arbitrary bytes.
+func stdEvalRaw(o impl.Op) string { return stdEval2(o, false, true) }
+
+func stdEval(o impl.Op, lower bool) string { return stdEval2(o, lower, false) }
+
+func stdEval2(o impl.Op, lower, raw bool) string {
 	un := func(i int) []byte {
 		if i >= len(o.Args) || o.Args[i] == "-" {
 			return []byte{}
@@ -853,8 +860,17 @@ func stdEval(o impl.Op, lower bool) string {
 	case "ContainsAny":
 		return b2s(bytes.ContainsAny(L(s), string(L(un(1)))))
 	case "IndexRune":
+		if raw {
+			if o.Cfg[0] == 'b' {
+				return strconv.Itoa(bytes.IndexRune(s, rune(num())))
+			}
+			return strconv.Itoa(strings.IndexRune(string(s), rune(num())))
+		}
 		return strconv.Itoa(bytes.IndexRune(L(s), unicode.ToLower(rune(num()))))
 	case "ContainsRune":
+		if raw {
+			return b2s(bytes.ContainsRune(s, rune(num())))
+		}
 		return b2s(bytes.ContainsRune(L(s), unicode.ToLower(rune(num()))))
 	case "IndexByte", "IndexByteASCII":
 		return strconv.Itoa(bytes.IndexByte(L(s), L([]byte{byte(num())})[0]))
